@@ -257,9 +257,20 @@ impl TryFrom<Zonefile> for ZoneBuilder {
             let ds = cut.ds.map(Rrset::into_shared);
             let mut glue = vec![];
             for rdata in ns.data() {
-                if let ZoneRecordData::Ns(ns) = rdata {
+                // A record written in the generic form of RFC 3597 carries
+                // the name of the name server as opaque data.
+                let nsdname = match rdata {
+                    ZoneRecordData::Ns(ns) => Some(ns.nsdname().clone()),
+                    ZoneRecordData::Unknown(data)
+                        if data.rtype() == Rtype::NS =>
+                    {
+                        StoredName::from_octets(data.data().clone()).ok()
+                    }
+                    _ => None,
+                };
+                if let Some(nsdname) = nsdname {
                     glue.append(
-                        &mut zonefile.normal.collect_glue(ns.nsdname()),
+                        &mut zonefile.normal.collect_glue(&nsdname),
                     );
                 }
             }
